@@ -150,6 +150,10 @@ func (c c03) Generate(e *Env) ([]*Case, error) {
 			}
 		}
 	}
+	// p4: a function obfuscated with trash blocks (control flow only).
+	for i := 0; i < k; i++ {
+		add("p4", "ctrlflow", c03Variant{RtSeed: fmt.Sprint(2 + rng.Intn(1<<30)), P: 1, Cache: "user-cold", Sched: SchedSpec{Kind: "canonical"}})
+	}
 	if thorough {
 		for i := 0; i < 2; i++ {
 			add("p1", []string{"default", "literals"}[i], c03Variant{RtSeed: fmt.Sprint(7 + i), P: 16, Cache: "cold", Sched: SchedSpec{Kind: "canonical"}})
@@ -190,7 +194,8 @@ func hashCompileInputs(into map[string]string) func(*engine.Sim, engine.Step) {
 }
 
 type c03Canon struct {
-	Sha    string
+	Sha     string // gated, serial, rtseed 1
+	Ungated string // ungated reference (real parallelism), rtseed 1
 	Inputs map[string]string
 }
 
@@ -235,10 +240,9 @@ func (c c03) canonical(e *Env, prog, cfgName, tier string) (*c03Canon, error) {
 		got := world.HashFile(out)
 		// The ungated reference and the gated canonical run are themselves two
 		// variants (real parallelism vs. serial): they must agree.
-		if got != ref.Sha {
-			return &c03Canon{Sha: ref.Sha, Inputs: inputs}, fmt.Errorf("MISMATCH:%s", got)
-		}
-		return &c03Canon{Sha: ref.Sha, Inputs: inputs}, nil
+		// Variants are compared with the gated run, whose compile inputs are known;
+		// a disagreement with the ungated run is reported on its own.
+		return &c03Canon{Sha: got, Ungated: ref.Sha, Inputs: inputs}, nil
 	})
 	if v == nil {
 		return nil, err
@@ -257,15 +261,23 @@ func (c c03) Run(e *Env, cs *Case) (*Outcome, error) {
 	o.Fingerprint = string(cs.Params)
 	o.NonTrivial = true
 	canon, cerr := c.canonical(e, p.Prog, p.Cfg, p.Tier)
-	if cerr != nil && (canon == nil || !strings.HasPrefix(cerr.Error(), "MISMATCH:")) {
+	if cerr != nil {
 		return nil, cerr
 	}
-	if cerr != nil {
-		o.Violation = &Violation{Class: "binary-differs", Key: "binary-differs/" + p.Cfg + "/gated-vs-ungated",
-			Detail: fmt.Sprintf("%s under %s: the serial gated build (%s) and the ungated parallel build (%s) of identical inputs differ", p.Prog, p.Cfg, strings.TrimPrefix(cerr.Error(), "MISMATCH:")[:16], canon.Sha[:16])}
-		o.Sample = map[string]any{"params": p}
-		return o, nil
+	var extra []*Violation
+	if canon.Ungated != canon.Sha {
+		extra = append(extra, &Violation{Class: "binary-differs", Key: "binary-differs/" + p.Prog + "/" + p.Cfg + "/gated-vs-ungated",
+			Detail: fmt.Sprintf("%s under %s: the serial gated build (%.16s) and the ungated parallel build (%.16s) of identical inputs and runtime seed differ (the number of runtime.rand draws differs between the two, hence map iteration orders)", p.Prog, p.Cfg, canon.Sha, canon.Ungated)})
 	}
+	defer func() {
+		// attach the canonical-pair violation to whatever this case found
+		if o != nil && len(extra) > 0 {
+			if o.Violation == nil {
+				o.Violation, extra = extra[0], extra[1:]
+			}
+			o.More = append(o.More, extra...)
+		}
+	}()
 	w, err := world.New(e.Bin, "c03")
 	if err != nil {
 		return nil, err
